@@ -251,6 +251,10 @@ impl Qcow2Header {
             .with_fixint_encoding()
             .with_big_endian();
 
+        if header_buf.len() < size_of::<Qcow2RawHeader>() {
+            return Err("header buffer is too small".into());
+        }
+
         let mut header: Qcow2RawHeader =
             bincode.deserialize(&header_buf[0..size_of::<Qcow2RawHeader>()])?;
         if header.magic != Self::QCOW2_MAGIC {
@@ -685,6 +689,10 @@ impl Qcow2HeaderExtension {
                 Qcow2HeaderExtensionType::FeatureNameTable => {
                     let mut feats = HashMap::new();
                     for feat in data.chunks(48) {
+                        // a truncated entry has no room for type, bit and name
+                        if feat.len() < 2 {
+                            continue;
+                        }
                         let feat_type: Qcow2FeatureType = match feat[0].try_into() {
                             Ok(ft) => ft,
                             Err(_) => continue, // skip unrecognized entries
